@@ -17,7 +17,7 @@ os.makedirs(os.path.join(BUILD, "scripts"))
 TC = "nightly"
 bindir = subprocess.check_output(["rustc", "+" + TC, "--print", "sysroot"], text=True).strip() + "/lib/rustlib/x86_64-unknown-linux-gnu/bin"
 env = dict(os.environ, RUSTFLAGS="--cfg framehop_verif -C instrument-coverage", CARGO_TARGET_DIR=os.path.join(BUILD, "target"),
-           CARGO_NET_OFFLINE="true")
+           CARGO_NET_OFFLINE="true", LLVM_PROFILE_FILE=os.path.join(BUILD, "prof", "build-%p.profraw"))   # build scripts are instrumented too: keep their profiles out of /repo
 r = subprocess.run(["cargo", "+" + TC, "build", "--offline"], cwd=os.path.join(ROOT, "harness"), env=env, capture_output=True, text=True)
 if r.returncode:
     print(r.stderr[-3000:]); sys.exit(1)
